@@ -88,6 +88,17 @@ EXTRA_PAIRS = [
     ("EF1", ["C09"]),    # a flush that reports success although a write failed is not durable
     ("LS3", ["C03", "C10"]),   # lookup and delete must agree on which entry a name denotes
     ("MK1", ["C06"]), ("MD10", ["C01"]), ("SD18", ["C19"]), ("SD19", ["C12"]),
+    # --- round 9
+    ("FT4", ["C03"]),    # reserved-bit / special-value handling of update_fat: a link stored with stray high bits runs out of the volume
+    ("MT4", ["C03"]),    # the FAT12/16/32 decision: a FAT12 table rewritten as 16-bit entries cross-links every chain
+    ("BC3", ["C06"]),    # a cached directory sector served after the device was handed out lists entries that are no longer on the medium
+    ("BM1", ["C10"]),    # zeroing the wrong cluster leaves the new directory cluster with stale contents (and wipes somebody's data)
+    ("AT1", ["C17"]),    # which slots are long-name fragments is decided by the attribute predicate
+    ("FT3", ["C05"]),    # a free test on the unmasked entry never finds clusters whose reserved bits are set: space is lost
+    ("IO1", ["C09"]),    # embedded_io::Write::flush is flush_file: what a generic caller flushed is durable
+    ("LS4", ["C10"]),    # a delete that scans another directory than the one named tombstones a foreign entry and frees a live file's chain
+    ("SK5", ["C05"]),    # positions the translation refuses are capacity that cannot be used: the volume fills up early
+    ("SK1", ["C07"]),    # the append modes position the handle with seek_from_end(0): it must succeed for every file length
 ]
 EXTRA = {}
 for _k, _v in EXTRA_PAIRS:      # a rule may be listed several times (one line per reason): the lists add up
